@@ -13,6 +13,16 @@ TB_VALUE = TB_COMMON + [
 ]
 
 PROPS = {
+    "C04": {
+        "n_quick": 450, "n_thorough": 8000,
+        "check_fn": "k04_check",
+        "rule": "paired marked / stripped runs: all 20 operation methods on number, bool and collection operand tuples with 1-3 distinct marks placed on the top-level value and on nested "
+                "members (combined with refined unknowns and nulls); SetVal of marked members; convert.Convert of marked values to generalised / mutated / string / dynamic targets; 12 stdlib "
+                "functions with marked and unknown arguments; non-trivial = at least one mark present",
+        "trusted_base": TB_VALUE,
+        "assumptions": ["conversions and function calls are checked by the paired-run oracle on the implementation; their Gallina models belong to C08/C10"],
+        "partial": ["theorems cover every operation method (generic wrapper theorems + instances), Equals' deep collection and SetVal hoisting; Convert and Function.Call mark handling is oracle-checked here and proved where their models live (C10)"],
+    },
     "C06": {
         "n_quick": 70, "n_thorough": 2500,
         "check_fn": "k06_check", "prop_cases_are_inputs": True,
